@@ -493,6 +493,11 @@ def check_c09(prop, tier):
             sc = json.loads(json.loads(line))
             if sc['outs'][0]['out']['adversarial']:
                 continue
+            if any(fp['kind'] == 'E' for pt in sc['series'] for fp in pt['fps']):
+                # a push that ends in an error leaves nothing behind, also not the patches before the one with the error
+                # (C05: no name recorded, tree unchanged), while the pieces before it stay applied when pushed separately:
+                # C09 speaks of reaching a goal and of failed pushes, not of these
+                continue
             sjobs.append((sc, [['1'], ['-a']] if li % 3 == 0 else ([['2'], ['-a']] if li % 3 == 1 else [['1'], ['1'], ['-a']]), 1 + li % 2, (li // 3) % 2))
         with Pool(12) as pool:
             souts = pool.map(split_job, sjobs, chunksize=8)
